@@ -1,6 +1,6 @@
 SPECIFICATION Spec
 CONSTANTS L = 5
- CLASSES = {"val", "sep", "blankline", "nopen", "nclose", "sopen", "sclose", "open", "close", "suf"}
+ CLASSES = {"val", "sep", "blankline", "nopen", "nclose", "sopen", "sclose", "open", "close", "suf", "pair", "infixid", "comma", "bin", "pre"}
  SEPS = {"blank"}
  BALANCED = TRUE
 INVARIANT Emit
